@@ -18,6 +18,10 @@ pub enum Op {
     Register,
     /// registration for the user handle of seeded credential n (the "same account")
     RegisterUser(u8),
+    /// registration that does not ask for a discoverable credential (rk = false)
+    RegisterNonResident,
+    /// assertion without allow list (discoverable-credential lookup by RP)
+    AssertAny,
 }
 #[derive(Clone, Debug, Serialize, Deserialize, PartialEq, Eq, Hash)]
 pub struct Scenario {
@@ -60,7 +64,11 @@ where
                 Ok(r) => Outcome::Asserted { cred: r.credential.map(|d| d.id.to_vec()).unwrap_or_default(), counter: r.auth_data.counter.unwrap_or(0) },
                 Err(e) => Outcome::Failed(e.into()),
             },
-            Op::Register | Op::RegisterUser(_) => match auth.make_credential(mc_request(RP, &match op { Op::RegisterUser(n) => vec![n], _ => vec![9, idx as u8] }, None, true, true, true, false, None)).await {
+            Op::AssertAny => match auth.get_assertion(ga_request(RP, None, false, true, true, false, None)).await {
+                Ok(r) => Outcome::Asserted { cred: r.credential.map(|d| d.id.to_vec()).unwrap_or_default(), counter: r.auth_data.counter.unwrap_or(0) },
+                Err(e) => Outcome::Failed(e.into()),
+            },
+            Op::Register | Op::RegisterUser(_) | Op::RegisterNonResident => match auth.make_credential(mc_request(RP, &match op { Op::RegisterUser(n) => vec![n], _ => vec![9, idx as u8] }, None, op != Op::RegisterNonResident, true, true, false, None)).await {
                 Ok(r) => Outcome::Registered { cred: r.auth_data.attested_credential_data.as_ref().map(|a| a.credential_id().to_vec()).unwrap_or_default() },
                 Err(e) => Outcome::Failed(e.into()),
             },
@@ -161,6 +169,13 @@ pub fn scenarios(tier: Tier) -> Vec<(Scenario, Option<usize>)> {
             v.push((mk("assert||assert(same)", vec![Op::Assert(1), Op::Assert(1)], "option"), None));
             v.push((mk("register(user1)||register(user1)", vec![Op::RegisterUser(1), Op::RegisterUser(1)], "memory"), None));
             v.push((mk("assert(1)||register(user1)", vec![Op::Assert(1), Op::RegisterUser(1)], "memory"), None));
+            v.push((mk("register(non-resident)", vec![Op::RegisterNonResident], "memory"), None));
+            v.push((mk("register(non-resident)||assert", vec![Op::RegisterNonResident, Op::Assert(1)], "memory"), None));
+            v.push((mk("register(non-resident)||register", vec![Op::RegisterNonResident, Op::Register], "memory"), None));
+            // (MemoryStore answers list-less lookups with nothing – a C05 finding – so the list-less
+            // assertion runs on the Option store only, and alone: the single slot is replaced by
+            // every registration, and a second assertion is the known lost update)
+            v.push((mk("assert(any)", vec![Op::AssertAny], "option"), None));
             let b3 = Some(tier.pick(2, 3));
             v.push((mk("assert||assert||assert(same)", vec![Op::Assert(1), Op::Assert(1), Op::Assert(1)], "memory"), b3));
             v.push((mk("assert||assert||register", vec![Op::Assert(1), Op::Assert(1), Op::Register], "memory"), b3));
